@@ -30,9 +30,20 @@ def _mk_attr_rule(ent):
         ws = effects.writers_of(ctx, ent['class'], ent['attr'])
         if not ws:
             raise AnalysisError('anchor-vanished: no writer of %s.%s at all' % (ent['class'], ent['attr']))
+        allowed = set(ent['allowed'])
+
+        def delegated(fi, depth=0):
+            # a private helper that only owners call (directly or through other such helpers) writes on their behalf:
+            # extracting a few lines of an owner into a helper does not add a writer
+            if not fi.name.startswith('_') or fi.name.startswith('__') or depth > 3:
+                return False
+            cs = ctx.callers().get(fi.qual, [])
+            if not cs:
+                return False
+            return all(c.qual in allowed or delegated(c, depth + 1) for c, call in cs)
         for w in ws:
             q = w.fi.qual
-            ok = q in ent['allowed']
+            ok = q in allowed or delegated(w.fi)
             key = '%s.%s|writer %s' % (ent['class'], ent['attr'], q)
             obs.append(Ob(rid, key, ok, ctx.loc(w.fi, w.node),
                           '' if ok else '%s writes %s.%s (%s) but is not one of its owners %s: %s'
